@@ -933,8 +933,94 @@ func mirrorHelper(p *packages.Package, fn *types.Func) (string, string, bool) {
 		if n == 2 && m1 != "" && m2 != "" && m1 != m2 {
 			return strip(m1), strip(m2), true
 		}
+		// the two stores through one setter: set(T1, a, b); set(T2, b, a) where set(m, key, value) stores m[key.Line][key.Col] = value
+		if n == 0 {
+			k := 0
+			for _, st := range fd.Body.List {
+				es, ok := st.(*ast.ExprStmt)
+				if !ok {
+					k += 10
+					continue
+				}
+				call, ok := es.X.(*ast.CallExpr)
+				if !ok || len(call.Args) != 3 || !isPositionSetter(p, calleeOf(info, call)) {
+					k += 10
+					continue
+				}
+				a1, a2 := types.ExprString(call.Args[1]), types.ExprString(call.Args[2])
+				switch {
+				case a1 == prm[0] && a2 == prm[1]:
+					m1 = types.ExprString(call.Args[0])
+					k++
+				case a1 == prm[1] && a2 == prm[0]:
+					m2 = types.ExprString(call.Args[0])
+					k++
+				default:
+					k += 10
+				}
+			}
+			if k == 2 && m1 != "" && m2 != "" && m1 != m2 {
+				return strip(m1), strip(m2), true
+			}
+		}
 	}
 	return "", "", false
+}
+
+// isPositionSetter: fn(m, key, value) stores value at m[key.Line][key.Col] — directly, or through a row local that is
+// fetched as cols(, ok) := m[key.Line] and, when made, stored back as m[key.Line] = cols — and stores nothing else.
+func isPositionSetter(p *packages.Package, fn *types.Func) bool {
+	if fn == nil || fn.Pkg() != p.Types {
+		return false
+	}
+	info := p.TypesInfo
+	for _, fd := range allFuncDecls(p) {
+		if info.Defs[fd.Name] != types.Object(fn) || fd.Body == nil || fd.Recv != nil {
+			continue
+		}
+		var prm []string
+		for _, pl := range fd.Type.Params.List {
+			for _, nm := range pl.Names {
+				prm = append(prm, nm.Name)
+			}
+		}
+		if len(prm) != 3 {
+			return false
+		}
+		rowExpr := prm[0] + "[" + prm[1] + ".Line]"
+		rowLocal, storedBack, good, other := "", false, false, false
+		ast.Inspect(fd.Body, func(x ast.Node) bool {
+			as, ok := x.(*ast.AssignStmt)
+			if !ok {
+				return true
+			}
+			for i, l := range as.Lhs {
+				r := as.Rhs[min(i, len(as.Rhs)-1)]
+				lt, rt := types.ExprString(l), types.ExprString(r)
+				switch {
+				case i == 0 && rt == rowExpr:
+					if id, ok := l.(*ast.Ident); ok {
+						rowLocal = id.Name
+					}
+				case lt == rowExpr && rt == rowLocal && rowLocal != "":
+					storedBack = true
+				case lt == rowExpr && strings.HasPrefix(rt, "make("):
+				case lt == rowLocal && strings.HasPrefix(rt, "make("):
+				case lt == rowExpr+"["+prm[1]+".Col]" && rt == prm[2]:
+					good = true
+				case rowLocal != "" && lt == rowLocal+"["+prm[1]+".Col]" && rt == prm[2]:
+					good = true
+				default:
+					if _, isIx := l.(*ast.IndexExpr); isIx {
+						other = true
+					}
+				}
+			}
+			return true
+		})
+		return good && !other && (rowLocal == "" || storedBack)
+	}
+	return false
 }
 
 // isGetOrCreateRow: fn(m, k) returns m[k], creating the row first when it is missing: its body indexes its first
